@@ -1,3 +1,4 @@
 import pdo_check
 def run(ctx):
-    pdo_check.run(ctx, ["C14T", "C14R", "C14W", "C14X"], quick_edges=9000, walks=(40, 2000))
+    pdo_check.run(ctx, ["C14T", "C14R", "C14W", "C14X"], quick_edges=6000, walks=(30, 2000), secondary=3500, shift_n=1500)
+VARIANTS = {"default": (), "r4t2": ("CO_RPDO_N=4", "CO_TPDO_N=2"), "r2t4": ("CO_RPDO_N=2", "CO_TPDO_N=4")}
